@@ -207,6 +207,31 @@ impl<'a> Reduced<'a> {
     }
 }
 
+/// Verification hook (only with `--cfg dashu_verif`): the multi-word ring kernels of this file on raw
+/// (pre-shifted) residues, for a modulus given as words. op: 0 add, 1 sub, 2 neg, 3 dbl, 4 swapped sub.
+#[cfg(dashu_verif)]
+pub fn verif_large_op(
+    modulus: &[crate::arch::word::Word],
+    a_raw: &[crate::arch::word::Word],
+    b_raw: &[crate::arch::word::Word],
+    op: u8,
+) -> (alloc::boxed::Box<[crate::arch::word::Word]>, u32) {
+    let ring = ConstLargeDivisor::new(crate::buffer::Buffer::from(modulus));
+    let mut x = ReducedLarge(a_raw.into());
+    let mut y = ReducedLarge(b_raw.into());
+    match op {
+        0 => add_in_place(&ring, &mut x, &y),
+        1 => sub_in_place(&ring, &mut x, &y),
+        2 => negate_in_place(&ring, &mut x),
+        3 => dbl_in_place(&ring, &mut x),
+        _ => {
+            sub_in_place_swap(&ring, &x, &mut y);
+            return (y.0, ring.shift);
+        }
+    }
+    (x.0, ring.shift)
+}
+
 pub(crate) fn negate_in_place(ring: &ConstLargeDivisor, raw: &mut ReducedLarge) {
     debug_assert!(raw.is_valid(ring));
     if !raw.0.iter().all(|w| *w == 0) {
